@@ -514,6 +514,7 @@ type vC11Scn struct {
 	prep    func(r *vC11Run)
 	act     func(r *vC11Run) error
 	rb      func(r *vC11Run) [][3]string // read-backs through the real read API: {label, expected, actual}
+	envw    []string                     // key classes written by the scenario's concurrent (environment) writer, see ctl.hook
 	noFault bool                         // rejection kinds: enumerated without faults
 	tier    int                          // 0 = quick and thorough, 1 = thorough only
 }
@@ -887,7 +888,7 @@ func (h *vC11H) execute(sc *vC11Scn, faults []vC11Fault, prog []*vC11OpRec, clea
 		path = "doc"
 	}
 	h.tw.Emit(vObj{"a": "Begin", "run": r.id, "type": sc.name, "path": path, "primary": sc.primary, "clean": clean, "faults": fl, "prog": progO,
-		"pre": preO, "effpre": effA, "rec": prog == nil, "nofault": sc.noFault})
+		"pre": preO, "effpre": effA, "rec": prog == nil, "nofault": sc.noFault, "envw": append([]string{}, sc.envw...)})
 	for _, o := range ops {
 		h.tw.Emit(vObj{"a": "Op", "i": o.I, "m": o.M, "c": o.C, "w": o.W, "cas": o.Cas, "r": o.R, "key": o.Key})
 	}
@@ -1478,7 +1479,7 @@ func vC11Scenarios(h *vC11H) []*vC11Scn {
 			}},
 		// a concurrent, acknowledged admin update lands between UpdatePrincipal's read and its save: the save must not
 		// overwrite it (real CAS mismatch of the store, release of the sequence, retry) - both updates are read back
-		{name: "user_update_race", path: "UpdatePrincipal", primary: "user", noFault: true,
+		{name: "user_update_race", path: "UpdatePrincipal", primary: "user", noFault: true, envw: []string{"user"},
 			prep: func(r *vC11Run) { r.mkUser(r.user, "c11a") },
 			act: func(r *vC11Run) error {
 				fired := false
@@ -1502,6 +1503,96 @@ func vC11Scenarios(h *vC11H) []*vC11Scn {
 					{"user", "disabled: true", "disabled: " + strconv.FormatBool(strings.Contains(eff, "dis=true"))},
 					{"concurrent-update", "concurrent update kept: true", "concurrent update kept: " + strconv.FormatBool(strings.Contains(eff, "c11race"))},
 				}
+			}},
+		// ---- resync with regenerate_sequences: the loop body of updateAllPrincipalsSequences for ONE principal (load, reserve a
+		// sequence, UpdateSequenceNumberForResync).  The whole loop would visit every principal of the bucket.
+		{name: "resync_user_seq", path: "resyncPrincipal", primary: "user",
+			prep: func(r *vC11Run) { r.mkUser(r.user, "c11a") },
+			act: func(r *vC11Run) error {
+				authr := h.db.Authenticator(h.ctx)
+				u, err := authr.GetUser(r.user)
+				if err != nil || u == nil {
+					return err
+				}
+				return h.db.regeneratePrincipalSequences(h.ctx, authr, u, "resync-"+r.tok)
+			},
+			rb: func(r *vC11Run) [][3]string {
+				got := "?"
+				if u, err := h.db.Authenticator(h.ctx).GetUser(r.user); err == nil && u != nil {
+					got = u.ResyncID()
+				}
+				return [][3]string{{"resyncseq", "resync-" + r.tok, got}}
+			}},
+		{name: "resync_role_seq", path: "resyncPrincipal", primary: "role",
+			prep: func(r *vC11Run) { r.mkRole(r.role, "c11a") },
+			act: func(r *vC11Run) error {
+				authr := h.db.Authenticator(h.ctx)
+				ro, err := authr.GetRole(r.role)
+				if err != nil || ro == nil {
+					return err
+				}
+				return h.db.regeneratePrincipalSequences(h.ctx, authr, ro, "resync-"+r.tok)
+			},
+			rb: func(r *vC11Run) [][3]string {
+				got := "?"
+				if ro, err := h.db.Authenticator(h.ctx).GetRole(r.role); err == nil && ro != nil {
+					got = ro.ResyncID()
+				}
+				return [][3]string{{"resyncseq", "resync-" + r.tok, got}}
+			}},
+		// an acknowledged admin update of the principal lands between resync's load and its write: whatever resync does
+		// (give up on the CAS mismatch and release its sequence), the acknowledged update must stay visible
+		{name: "resync_user_seq_race", path: "resyncPrincipal", primary: "user", noFault: true, envw: []string{"user", "useremail"},
+			prep: func(r *vC11Run) { r.mkUser(r.user, "c11a") },
+			act: func(r *vC11Run) error {
+				authr := h.db.Authenticator(h.ctx)
+				u, err := authr.GetUser(r.user)
+				if err != nil || u == nil {
+					return err
+				}
+				fired := false
+				h.ctl.hook = func(m, class string) {
+					if fired || class != "user" || (m != "WriteCas" && m != "Set" && m != "SetRaw" && m != "Update.write") {
+						return
+					}
+					fired = true
+					dis := true
+					cfg := &auth.PrincipalConfig{Name: &r.user, Disabled: &dis, Email: &r.email}
+					_, _, err := h.db.UpdatePrincipal(h.ctx, cfg, true, true)
+					r.must("concurrent principal update", err)
+				}
+				return h.db.regeneratePrincipalSequences(h.ctx, authr, u, "resync-"+r.tok)
+			},
+			rb: func(r *vC11Run) [][3]string {
+				eff := h.effective(r)["u:"+r.user]
+				return [][3]string{{"concurrent-update", "concurrent update kept: true",
+					"concurrent update kept: " + strconv.FormatBool(strings.Contains(eff, "dis=true") && strings.Contains(eff, "email="+r.email))}}
+			}},
+		{name: "resync_role_seq_race", path: "resyncPrincipal", primary: "role", noFault: true, envw: []string{"role"},
+			prep: func(r *vC11Run) { r.mkRole(r.role, "c11a") },
+			act: func(r *vC11Run) error {
+				authr := h.db.Authenticator(h.ctx)
+				ro, err := authr.GetRole(r.role)
+				if err != nil || ro == nil {
+					return err
+				}
+				fired := false
+				h.ctl.hook = func(m, class string) {
+					if fired || class != "role" || (m != "WriteCas" && m != "Set" && m != "SetRaw" && m != "Update.write") {
+						return
+					}
+					fired = true
+					cfg := &auth.PrincipalConfig{Name: &r.role}
+					cfg.SetExplicitChannels(h.scope, h.coll, "c11a", "c11race")
+					_, _, err := h.db.UpdatePrincipal(h.ctx, cfg, false, true)
+					r.must("concurrent principal update", err)
+				}
+				return h.db.regeneratePrincipalSequences(h.ctx, authr, ro, "resync-"+r.tok)
+			},
+			rb: func(r *vC11Run) [][3]string {
+				eff := h.effective(r)["r:"+r.role]
+				return [][3]string{{"concurrent-update", "concurrent update kept: true",
+					"concurrent update kept: " + strconv.FormatBool(strings.Contains(eff, "c11race"))}}
 			}},
 		{name: "user_delete", path: "deleteUser", primary: "user",
 			prep: func(r *vC11Run) {
